@@ -14,7 +14,7 @@
     * `reset_then_setTarget_is_fresh`: after `Reset` — from ANY context whatsoever, i.e.
       after a document abandoned at any event, after any error — `SetTarget` yields exactly
       the context a new Unfolder (with the same key cache, which `SF.Props.C20` proves
-      transparent) would have: every later event is processed identically;
+      transparent, and the same memo of compiled types) would have: every later event is processed identically;
     * skipping an unknown member never errors or panics (`SF.Props.C13`).
 
   The no-panic / no-foreign-write clauses over all (stream, target) pairs are decided by the
@@ -39,8 +39,8 @@ theorem prealloc_exact (l : Int) (h : l ≤ 1024) : arrPreallocLen l = l := by
 
 /-- the slice stored by `unfoldArrStartX.OnArrayStart` into a nil target: at most 1024
 elements whatever length is announced -/
-theorem typed_prealloc_le (k : PK) (l : Int) :
-    (List.replicate (arrPreallocLen l).toNat (zero k.goType)).length ≤ 1024 := by
+theorem typed_prealloc_le (tbl : TypeTable) (k : PK) (l : Int) :
+    (List.replicate (arrPreallocLen l).toNat (zero tbl k.goType)).length ≤ 1024 := by
   have := (prealloc_bounded l).1
   simp only [List.length_replicate]
   omega
@@ -48,16 +48,22 @@ theorem typed_prealloc_le (k : PK) (l : Int) :
 /-- C14 (reuse clause): `Reset` followed by `SetTarget` from ANY context `c` — whatever the
 previous documents were, wherever the last one was abandoned, whatever error it ended with,
 whatever is left on the six stacks and in the scratch buffers — is exactly `SetTarget` on a
-new Unfolder that has the same key cache.  All later behaviour is a function of the context,
-so the reused unfolder processes the next document exactly as a new one would. -/
-theorem reset_then_setTarget_is_fresh (c : Ctx) (t : GoType) (v : GoVal) :
-    setTarget t v (reset c) =
-      setTarget t v { newUnfolder with keyCache := c.keyCache, whatIfFixed := c.whatIfFixed } := by
+new Unfolder that has the same key cache and the same registry of compiled types (the two
+memo tables that survive `Reset` in the Go code; the key cache is proved transparent in
+`SF.Props.C20`, the registry is a memo of `buildReflUnfolder` whose transparency is decided by
+op `unf-seq`).  All later behaviour is a function of the context, so the reused unfolder
+processes the next document exactly as that new one would. -/
+theorem reset_then_setTarget_is_fresh (c : Ctx) (tbl : TypeTable) (t : GoType) (v : GoVal) :
+    setTarget tbl t v (reset c) =
+      setTarget tbl t v
+        { newUnfolder with keyCache := c.keyCache, reg := c.reg, whatIfFixed := c.whatIfFixed } := by
   rfl
 
-/-- … in particular the target left behind by the abandoned document plays no role -/
+/-- … nothing else of the abandoned document survives: stacks, scratch buffers, `reflect.New`
+cells are those of a new Unfolder -/
 theorem reset_forgets (c : Ctx) :
-    reset c = { newUnfolder with keyCache := c.keyCache, whatIfFixed := c.whatIfFixed, target := c.target } := by
+    reset c = { newUnfolder with keyCache := c.keyCache, reg := c.reg, whatIfFixed := c.whatIfFixed,
+                                 target := c.target, env := c.env } := by
   rfl
 
 /-- non-vacuity: the announced lengths of the property text -/
